@@ -827,3 +827,70 @@ func checkScanStep(c *core.Ctx, rule string, only func(fn *ssa.Function) bool, f
 	}
 	c.Floor(rule, floor)
 }
+
+// checkDispatchErrorToken (err.token): the statement dispatchers switch on the type of the *current* token. When no arm
+// takes it, the error must name that token - the one that cannot start a statement - not the one after it: the
+// position of a parse error designates the text the error refers to. Sibling rule: Parse and ParseStatement hand
+// p.curToken to UnexpectedToken in their default arm; every dispatcher must.
+func checkDispatchErrorToken(c *core.Ctx) {
+	prog := c.Prog
+	for _, name := range []string{"Parser.Parse", "Parser.ParseStatement", "Parser.ParseSnippetVCL"} {
+		fn := prog.SSAFunc("parser", name)
+		if fn == nil {
+			c.MissingAnchor("err.token", "parser.(*"+name+")")
+			continue
+		}
+		// the dispatch tests: curToken.Token.Type == K
+		isDispatchTest := func(b *ssa.BasicBlock) (int, bool) {
+			bo, eq, ok := core.EqBranch(b)
+			if !ok {
+				return 0, false
+			}
+			for _, o := range []ssa.Value{bo.X, bo.Y} {
+				for x := range core.BackSliceLocal(o) {
+					if f := core.FieldOf(x); f != nil && f.Name() == "curToken" {
+						return eq, true
+					}
+				}
+			}
+			return 0, false
+		}
+		n := 0
+		for _, b := range fn.Blocks {
+			for _, in := range b.Instrs {
+				call, ok := in.(*ssa.Call)
+				if !ok || call.Common().StaticCallee() == nil || call.Common().StaticCallee().Name() != "UnexpectedToken" {
+					continue
+				}
+				// in an arm? (dominated by the equal edge of a dispatch test)
+				inArm := false
+				tests := 0
+				for _, t := range fn.Blocks {
+					if eq, isT := isDispatchTest(t); isT {
+						tests++
+						if core.EdgeDominates(t, eq, b) {
+							inArm = true
+						}
+					}
+				}
+				if inArm || tests == 0 {
+					continue
+				}
+				n++
+				field := ""
+				for x := range core.BackSliceLocal(call.Common().Args[0]) {
+					if f := core.FieldOf(x); f != nil && (f.Name() == "curToken" || f.Name() == "peekToken") {
+						field = f.Name()
+					}
+				}
+				key := core.FnName(fn) + "|default"
+				if field == "curToken" {
+					c.Discharge("err.token", key, in.Pos(), "the error names the token the dispatch looked at")
+				} else {
+					c.Report("err.token", key, in.Pos(), fmt.Sprintf("%s switches on the current token, and when no arm takes it reports p.%s: the error designates the token after the one that cannot start a statement (its siblings report p.curToken)", core.FnName(fn), field))
+				}
+			}
+		}
+	}
+	c.Floor("err.token", 2)
+}
